@@ -321,6 +321,23 @@ func c01Writable(field, v string) bool {
 
 func c01WithField(field, v string) seqio.GenBank {
 	gb := c01Base()
+	c01ApplyField(&gb, field, v)
+	return gb
+}
+
+// c01PairValues: up to three representative writable values of a field for the pairwise sweep.
+func c01PairValues(field string) []string {
+	var out []string
+	for _, v := range []string{"", "a", ".", "a b.", "x; y", "a\nb", "\\", ":", "b c"} {
+		if c01Writable(field, v) && len(out) < 3 {
+			out = append(out, v)
+		}
+	}
+	return out
+}
+
+func c01ApplyField(gbp *seqio.GenBank, field, v string) {
+	gb := gbp
 	f := &gb.Fields
 	switch field {
 	case "definition":
@@ -374,7 +391,6 @@ func c01WithField(field, v string) seqio.GenBank {
 	case "division":
 		f.Division = v
 	}
-	return gb
 }
 
 func c01CorpusRecords(name string) []gts.Sequence {
@@ -479,6 +495,65 @@ func c01Seed(name string) []gts.Sequence {
 
 func c01Eval(c c01Case) (ok bool, sig, detail string) {
 	switch c.Kind {
+	case "subset":
+		// every subset of the optional header blocks present (the others left at their zero value)
+		gb := c01Base()
+		f := &gb.Fields
+		m := c.N
+		if m&1 == 0 {
+			f.Definition = ""
+		}
+		if m&2 == 0 {
+			f.Accession = ""
+		}
+		if m&4 == 0 {
+			f.Version = ""
+		}
+		if m&8 == 0 {
+			f.DBLink = nil
+		}
+		if m&16 == 0 {
+			f.Keywords = nil
+		}
+		if m&32 == 0 {
+			f.Source = seqio.Organism{}
+		}
+		if m&64 == 0 {
+			f.References = nil
+		}
+		if m&128 == 0 {
+			f.Comments = nil
+		}
+		if m&256 != 0 {
+			f.Extra = []seqio.ExtraField{seqio.GenBankExtraField("PRIMARY", "extra value")}
+		}
+		if m&512 != 0 {
+			f.Contig = seqio.Contig{Accession: "XY1.1", Region: gts.Segment{0, 24}}
+		}
+		if m&1024 == 0 {
+			gb.Table = nil
+		}
+		if m&2048 == 0 {
+			gb.Origin = seqio.NewOrigin(nil)
+			if gb.Table != nil {
+				gb.Table = gts.FeatureSlice{gb.Table[0]}
+			}
+			if m&512 == 0 {
+				f.References = nil // a record without residues and without a CONTIG has length 0: no base ranges
+				gb.Table = nil
+			}
+		}
+		return c01Roundtrip([]gts.Sequence{gb}, fmt.Sprintf("header subset mask %#x", m))
+	case "field2":
+		// two fields set together (interactions between neighbouring fields of the flat file)
+		fs := strings.SplitN(c.Field, "+", 2)
+		if len(fs) != 2 || len(c.Values) != 2 || !c01Writable(fs[0], c.Values[0]) || !c01Writable(fs[1], c.Values[1]) {
+			return true, "", "outside the writable domain"
+		}
+		gb := c01Base()
+		c01ApplyField(&gb, fs[0], c.Values[0])
+		c01ApplyField(&gb, fs[1], c.Values[1])
+		return c01Roundtrip([]gts.Sequence{gb}, fmt.Sprintf("fields %s = %q, %s = %q", fs[0], c.Values[0], fs[1], c.Values[1]))
 	case "field":
 		if !c01Writable(c.Field, c.Value) {
 			return true, "", ""
@@ -753,7 +828,7 @@ func init() {
 	register(&Check{ID: "C01", Level: "model_checking", Quick: 240 * time.Second, Thor: 40 * time.Minute,
 		Run: func(r *engine.Run) bool {
 			thorough := r.Tier == "thorough"
-			r.Rule = "write->read->compare->write on the real writer/scanner for: every string of <=3 symbols over {a,space,.,;,:,\",\\,newline} in each of 22 fields (one field varied at a time, writable-domain predicate per field), long wrapping values, lists of 0..3 items, 0..2 references with every sub-field subset, every calendar date of 1900-2100 (quick) / 1-9999 (thorough), every residue count 0..130, feature tables of 0..3 features over a location menu x 9 qualifier shapes, the corpus, streams of 1..3 records, every program of <=2 (quick) / <=3 (thorough) edit operations from every seed (BFS, de-duplicated on the canonical record), and every history of <=3 registry events; distinct key = canonical record dump; non-trivial = record has >=1 feature or was reached by >=1 operation"
+			r.Rule = "write->read->compare->write on the real writer/scanner for: every string of <=3 symbols over {a,space,.,;,:,\",\\,newline} in each of 22 fields (one field varied at a time, and every pair of fields at three representative values each; every subset of 12 optional blocks of a record present; writable-domain predicate per field), long wrapping values, lists of 0..3 items, 0..2 references with every sub-field subset, every calendar date of 1900-2100 (quick) / 1-9999 (thorough), every residue count 0..130, feature tables of 0..3 features over a location menu x 9 qualifier shapes, the corpus, streams of 1..3 records, every program of <=2 (quick) / <=3 (thorough) edit operations from every seed (BFS, de-duplicated on the canonical record), and every history of <=3 registry events; distinct key = canonical record dump; non-trivial = record has >=1 feature or was reached by >=1 operation"
 			complete := true
 			eval := func(c c01Case, size int) {
 				r.Evals.Add(1)
@@ -781,6 +856,21 @@ func init() {
 				for _, v := range []string{long, strings.Repeat("x", 90), long + "\n" + long, "semi; colon: and \\ back", "ends with period.", "(bases 1 to 24; 3 to 9)"} {
 					if c01Writable(f, v) {
 						eval(c01Case{Kind: "field", Field: f, Value: v}, 500)
+					}
+				}
+			}
+			// every subset of the optional blocks (definition, accession, version, dblink, keywords, source, references,
+			// comments, extra field, contig, feature table, origin)
+			for m := 0; m < 4096; m++ {
+				eval(c01Case{Kind: "subset", N: m}, 560)
+			}
+			// pairs of fields, three representative values each
+			for i, f1 := range c01Fields {
+				for _, f2 := range c01Fields[i+1:] {
+					for _, v1 := range c01PairValues(f1) {
+						for _, v2 := range c01PairValues(f2) {
+							eval(c01Case{Kind: "field2", Field: f1 + "+" + f2, Values: []string{v1, v2}}, 550)
+						}
 					}
 				}
 			}
